@@ -313,6 +313,48 @@ func (m *RModel) typeMethod(r *RType, name string, args []Value) Value {
 		sf[m.sfIdx["Anonymous"]] = f.Embedded()
 		sf[m.sfIdx["Index"]] = []Value{int64(i)}
 		return sf
+	case "FieldByName":
+		st, ok := t.Underlying().(*types.Struct)
+		if !ok {
+			panic(rpanic("reflect: FieldByName of non-struct type %s", r.String()))
+		}
+		name, _ := args[0].(string)
+		obj, index, _ := types.LookupFieldOrMethod(t, false, nil, name)
+		if f, ok := obj.(*types.Var); ok && f.IsField() && (f.Exported() || true) {
+			// find the struct that directly holds the field to read its tag
+			cur := st
+			for _, ix := range index[:len(index)-1] {
+				ft := cur.Field(ix).Type()
+				if p, ok := ft.Underlying().(*types.Pointer); ok {
+					ft = p.Elem()
+				}
+				cur, _ = ft.Underlying().(*types.Struct)
+				if cur == nil {
+					break
+				}
+			}
+			sf := zero(m.sfType).(Struct)
+			sf[m.sfIdx["Name"]] = f.Name()
+			if !f.Exported() {
+				pk := "x"
+				if f.Pkg() != nil {
+					pk = f.Pkg().Path()
+				}
+				sf[m.sfIdx["PkgPath"]] = pk
+			}
+			sf[m.sfIdx["Type"]] = m.typeIface(f.Type())
+			if cur != nil {
+				sf[m.sfIdx["Tag"]] = cur.Tag(index[len(index)-1])
+			}
+			sf[m.sfIdx["Anonymous"]] = f.Embedded()
+			ixs := make([]Value, len(index))
+			for i, ix := range index {
+				ixs[i] = int64(ix)
+			}
+			sf[m.sfIdx["Index"]] = ixs
+			return Tuple{sf, true}
+		}
+		return Tuple{zero(m.sfType), false}
 	case "Implements":
 		u := m.typeArg(args[0])
 		ui, ok := u.Underlying().(*types.Interface)
@@ -549,7 +591,11 @@ func (m *RModel) valueMethod(name string, args []Value) (Value, bool) {
 		panic(rpanic("reflect: call of reflect.Value.IsNil on %s Value", kindOf(r.t)))
 	case "IsZero":
 		need()
-		return equalVals(r.load(), zero(r.t)), true
+		eq := eqTerm(r.load(), zero(r.t))
+		if t, ok := eq.(*Term); ok {
+			return m.it.ex.decide(t), true // forks on a symbolic payload
+		}
+		return eq, true
 	case "Elem":
 		need()
 		switch u := r.t.Underlying().(type) {
